@@ -27,7 +27,9 @@ class LineTracer:
     def _global(self, frame, event, arg):
         code = frame.f_code
         if code.co_filename.startswith(SYMMRAY_DIR):
-            if code.co_name in self.exclude:
+            # (also methods of an excluded class: a class-based context manager's
+            # __enter__/__exit__ are the manager's own frames)
+            if code.co_name in self.exclude or code.co_qualname.split(".")[0] in self.exclude:
                 return None
             return self._local
         return None
